@@ -148,8 +148,9 @@ type notebookText string
 func (t notebookText) MarshalYAML() (interface{}, error) {
 	v := string(t)
 	if utf8.ValidString(v) && strings.ContainsAny(v, "\n\r") {
-		switch v[0] {
-		case '\n', '\r', ' ', '\t':
+		// YAML also counts NEL, LS and PS as line breaks
+		switch first, _ := utf8.DecodeRuneInString(v); first {
+		case '\n', '\r', ' ', '\t', 0x85, 0x2028, 0x2029:
 			return &yaml.Node{Kind: yaml.ScalarNode, Tag: "!!str", Value: v, Style: yaml.DoubleQuotedStyle}, nil
 		}
 	}
